@@ -303,7 +303,78 @@ def extra_obligations(reg):
                         goal=z3.InRe(s, lang), note='every conformant %d-character field matches %r' % (width, lit), func='_rp66v1_bytes'))
         out.append(dict(name='bin_file_type.py:_rp66v1_bytes/%s-canary' % name, pc=[z3.Length(s) == width], goal=z3.InRe(s, lang),
                         note='must fail: not every string is accepted', func='_rp66v1_bytes', expect_fail=True))
+    # ---- identification terminates promptly: no pattern it applies can make CPython's backtracking matcher exponential through
+    # a repetition whose body matches some word both as one iteration and as several (nested-quantifier blow-up)
+    for pname, lit in _all_regex_literals():
+        try:
+            bodies = regex.unbounded_bodies(lit)
+        except Exception as e:       # a construct outside the regex front end: said, not guessed
+            from pyvc.kinds import Unsupported
+            raise Unsupported('pattern %s = %r cannot be analysed: %s' % (pname, lit, e))
+        for j, (body, txt) in enumerate(bodies):
+            w, f = regex.splits_itself(body)
+            out.append(dict(name='bin_file_type.py:%s/repetition#%d-has-one-parse' % (pname, j), pc=[f], goal=z3.BoolVal(False),
+                            note='no non-empty word of %r is also a concatenation of several words of it (pattern %r): the repetition cannot '
+                                 'backtrack exponentially' % (txt, lit), func='binary_file_type', replay_code=_REDOS_REPLAY % (BF, pname)))
     return out
+
+
+_REDOS_REPLAY = '''
+# the word w the solver found is matched by the repetition body both as one iteration and as several: re.match on w * n
+# followed by a character that makes the whole match fail needs time exponential in n.  The compiled pattern is taken from
+# the real module; exit 1 = the blow-up is observed (time doubles per repetition and passes 2 s), 0 = not observed.
+import ast, re, time, importlib
+src = open(os.path.join(os.environ.get("PYVC_REPO", "/repo"), %r)).read()
+name = %r
+try:
+    mod = importlib.import_module("TotalDepth.util.bin_file_type")
+except Exception as e:
+    print("cannot import the module under test: %%r" %% (e,))
+    sys.exit(2)
+obj = mod
+for part in re.findall(r"[A-Za-z_][A-Za-z_0-9]*|\\[[^\\]]*\\]", name):
+    obj = obj[ast.literal_eval(part[1:-1])] if part.startswith("[") else getattr(obj, part)
+w = ast.literal_eval(MODEL["w"]) if isinstance(MODEL.get("w"), str) else "00"
+is_bytes = isinstance(obj.pattern, bytes)
+prefixes = ["", " VERS. ", "VERS.   ", "~V\\n VERS. "]
+worst = 0.0
+for pre in prefixes:
+    for n in range(4, 40):
+        text = pre + w * n + "\\x01"
+        t0 = time.perf_counter()
+        obj.match(text.encode("latin-1") if is_bytes else text)
+        dt = time.perf_counter() - t0
+        worst = max(worst, dt)
+        if dt > 2.0:
+            print("pattern %%r: match on %%r * %%d + mismatch took %%.1f s (prefix %%r): exponential backtracking" %% (obj.pattern, w, n, dt, pre))
+            sys.exit(1)
+        if dt > 0.5 and n > 30:
+            break
+print("no blow-up observed (worst %%.3f s)" %% worst)
+sys.exit(0)
+'''
+
+
+def _all_regex_literals():
+    """(name, literal) of every re.compile(<literal>) of bin_file_type.py: module-level names and entries of module-level dicts"""
+    import ast
+    from pyvc import source
+    mod = source.load(BF)
+    found = []
+
+    def visit(name, node):
+        if isinstance(node, ast.Call) and ast.unparse(node.func) == 're.compile' and node.args and isinstance(node.args[0], ast.Constant):
+            found.append((name, node.args[0].value))
+        elif isinstance(node, ast.Dict):
+            for k, v in zip(node.keys, node.values):
+                visit('%s[%s]' % (name, ast.unparse(k) if k is not None else '**'), v)
+    for name, node in mod.assigns.items():
+        visit(name, node)
+    n_calls = sum(1 for n in ast.walk(mod.tree) if isinstance(n, ast.Call) and ast.unparse(n.func) == 're.compile')
+    if n_calls != len(found):
+        from pyvc.kinds import Unsupported
+        raise Unsupported('bin_file_type.py has %d re.compile calls, %d of them are module-level literals this check can read' % (n_calls, len(found)))
+    return found
 
 
 def standins(tier, seed):
